@@ -743,7 +743,7 @@ func judgeC19(rep *core.Report, vio *c19Violations, items []WorkItem, results ma
 		if res.Timeout {
 			rep.Count("outcomes_cpu_budget_exceeded", 1)
 			core.NotePattern(rep, group, family+"=cpu-budget-exceeded")
-			vio.report(rep, "cpu-budget-exceeded", fmt.Sprintf("%s: %s consumed more than %d CPU-seconds twice", desc, res.Entry, cpuBudgetSecs), it, label)
+			vio.report(rep, "cpu-budget-exceeded", fmt.Sprintf("%s: %s consumed more than its CPU budget (%d s + %d s per GiB allocated) twice", desc, res.Entry, cpuBudgetSecs, cpuSecsPerGiB), it, label)
 			continue
 		}
 		o, ok := res.Outcomes[c19Entry]
@@ -792,7 +792,7 @@ func RunC19(ctx *core.Ctx, rep *core.Report) {
 		"Hostile inputs: a fixed hand-built list (self-, mutually and cyclically referential types directly and through arrays, reference chains of depth 200 and 5000, trees of 2^12 and 2^16 leaves, ']' before '[', unbalanced brackets, huge/negative/odd array sizes, " +
 		"missing dependencies, empty input, separators only, MSG: lines without type, duplicate sections, 1 MiB lines, NUL bytes, CR/CRLF line endings, malformed field lines), uniformly random byte strings, random strings over a definition-like alphabet, " +
 		"token soups, random ill-formed acyclic sections with hostile array suffixes, and valid definitions mutated by bit flips, byte substitutions, deleted/duplicated/swapped lines, truncation, deleted ranges, inserted brackets and CRLF conversion. Generated (not hand-built) hostile inputs that contain a reference cycle by accident are limited to 12 per run, further ones are cut to their top-level part (every cycle kills a worker and shows the same defect); the 23 hand-built cycles are always run. " +
-		"Oracle for every input: the call returns a value or an error in an isolated child (goroutine stack capped at 64 MiB for this monitor - room for about 147 000 nested records - address space 16 GiB, 60 CPU-s watchdog): a recovered panic, a dead worker or a CPU overrun is a violation. " +
+		"Oracle for every input: the call returns a value or an error in an isolated child (goroutine stack capped at 64 MiB for this monitor - room for about 147 000 nested records - address space 16 GiB, watchdog of 60 CPU-s plus 300 s per GiB allocated): a recovered panic, a dead worker or a CPU overrun is a violation. " +
 		"distinct_nontrivial counts distinct valid definitions with at least two top-level fields that matched, plus distinct hostile inputs on which the parser returned a value or an error."
 	rep.Assumptions = []string{
 		"expected-tree semantics follow the parser's unit tests: BaseType is the type text as written (brackets included for the array itself, excluded for Items); an array is not a record, its Items carry IsRecord/Fields; 'Header' always means std_msgs/Header; nil and empty Fields are the same",
